@@ -18,10 +18,10 @@ def run(tier, seed, t0):
     sev, ssum, smeta, mcm = sc.replay(PID, tier, seed)
     nrel = oc.classify_rel(v, events + sev)
     for e in sev:
-        if e["op"] == "session" and (e["what"] in ("reparse-accepted", "reparse-rejected", "reparse-fixpoint", "action-panic", "fact-panic") or not sc.is_coll_tree(e.get("tree"))):
+        if e["op"] == "session" and (e["what"] in ("reparse-accepted", "reparse-rejected", "reparse-fixpoint", "action-panic", "fact-panic", "fatal") or not sc.is_coll_tree(e.get("tree"))):
             v.violation({"property": PID, "event": e, "what": "session step %d (%s): %s: got %s, the specification says %s" % (
                 e["step"], e["history"][-1], e["what"], json.dumps(e.get("got"))[:300], json.dumps(e.get("exp"))[:300])})
-    for e in events:
+    for e in events + sev:
         if e["op"] == "dual":
             v.violation({"property": PID, "event": e, "what": "%s give different answers (%s vs %s) for A=%s B=%s" % (
                 e["calls"], e["r1"], e["r2"], json.dumps(e["A"])[:250], json.dumps(e["B"])[:250])})
